@@ -18,6 +18,7 @@ inductive Reachable : State → Prop
   | op {s : State} (o : Op) (hint : List Nat) : Reachable s → s.stack = [] → Reachable (applyOp (s.begin hint) o)
   | step {s : State} : Reachable s → Reachable (step s)
   | endOp {s : State} : Reachable s → Reachable (endOp s)
+  | outOfFuel {s : State} : Reachable s → Reachable (s.fail .fuel)
 
 inductive ReachableP : State → Prop
   | init : ReachableP {}
@@ -25,6 +26,7 @@ inductive ReachableP : State → Prop
       (applyOp (s.begin hint) o).P → ReachableP (applyOp (s.begin hint) o)
   | step {s : State} : ReachableP s → (step s).P → ReachableP (step s)
   | endOp {s : State} : ReachableP s → ReachableP (endOp s)
+  | outOfFuel {s : State} : ReachableP s → ReachableP (s.fail .fuel)
 
 theorem ReachableP.reachable {s : State} (h : ReachableP s) : Reachable s := by
   induction h with
@@ -32,6 +34,7 @@ theorem ReachableP.reachable {s : State} (h : ReachableP s) : Reachable s := by
   | op o hint _ hq _ ih => exact .op o hint ih hq
   | step _ _ ih => exact .step ih
   | endOp _ ih => exact .endOp ih
+  | outOfFuel _ ih => exact .outOfFuel ih
 
 theorem drain_reachable (f : Nat) (s : State) (h : Reachable s) : Reachable (drain f s) := by
   induction f generalizing s with
@@ -39,12 +42,19 @@ theorem drain_reachable (f : Nat) (s : State) (h : Reachable s) : Reachable (dra
     unfold drain
     split
     · exact h
-    · -- out of fuel: the machine stops with `err = fuel`; `step` of an erroneous state is itself
-      sorry
+    · exact .outOfFuel h
   | succ f ih =>
     unfold drain
     split
     · exact ih _ (.step h)
     · exact h
+
+/-- every state produced by running a history is reachable -/
+theorem execOp_reachable (fuel : Nat) (s : State) (o : Op) (hint : List Nat) (h : Reachable s)
+    (hq : s.stack = []) : Reachable (execOp fuel s o hint) := by
+  unfold execOp
+  split
+  · exact h
+  · exact .endOp (drain_reachable fuel _ (.op o hint h hq))
 
 end Cactus
